@@ -25,6 +25,12 @@ STUB_WAMP = ["WAMP transport: StubTransport (ITransport) - send() round-trips th
              "WAMP router: scripted broker/dealer speaking through the library's message classes (trusted base)",
              "reactor / event loop I/O: SimReactor / SimLoop", "randomness / wall clock: seeded shims"]
 
+REAL_STACK = ["autobahn.wamp.websocket + autobahn.{twisted,asyncio}.websocket WAMP-over-WebSocket transports (client and server) on the real WebSocket engine",
+              "autobahn.twisted.rawsocket / autobahn.asyncio.rawsocket WAMP-over-RawSocket transports (client and server), Twisted Int32StringReceiver",
+              "autobahn.wamp.serializer + message (all four serializers)", "txaio, Twisted / asyncio callback machinery"]
+STUB_STACK = ["TCP link, reactor/selector, randomness: as for the WebSocket worlds", "sessions on top of the transports: recording stubs (ITransportHandler)",
+              "scripted octet-level peer in handshake / limit / corruption modes"]
+
 META = {
     "C01": {
         "title": "WebSocket messages arrive intact, exactly once and in order",
@@ -173,5 +179,22 @@ META = {
         "real": REAL_WAMP,
         "stub": STUB_WAMP,
         "design_ref": "DESIGN.md section 4, C06",
+    },
+    "C13": {
+        "title": "WAMP transports attach a session only after valid negotiation and fail closed",
+        "budgets": {"quick": (120000, 70), "thorough": (3000000, 1800)},
+        "variants": ALL_VARIANTS,
+        "rule": ("batch prefix: RawSocket handshake octets 1-2 walk all 65536 values (quick tier: 4096-value sample, dense "
+                 "around the magic octet) against a real server and a real client endpoint, reserved octets and short / "
+                 "over-long handshakes drawn, seeded segmentation; then per 10 runs: 2x WebSocket subprotocol "
+                 "negotiation over drawn pairs of serializer lists (subsets, orders, batched), 3x traffic (real transport "
+                 "pair, stub sessions, up to 8 messages per direction out of all 25 message types, sizes around the "
+                 "negotiated limits), 1x RawSocket length limits vs a raw peer announcing every exponent and sending an "
+                 "over-long frame prefix, 2x corruption (flipped frame type, garbage, truncated, non-list, unknown type, "
+                 "out-of-phase, session raising in onOpen/onMessage), 2x generated handshakes; non-trivial = at least "
+                 "2 scheduler steps; distinct = hash of (action kind, endpoint state) sequence"),
+        "real": REAL_STACK,
+        "stub": STUB_STACK,
+        "design_ref": "DESIGN.md section 4, C13",
     },
 }
